@@ -18,6 +18,7 @@ struct H : mp::SOLHandler {
   mp::NLHeader Header() const { mp::NLHeader h; h.num_vars = g_nv; h.num_algebraic_cons = g_nc; return h; }
   template <class VR> void consume(VR &rd, int limit, const char *what) {
     if (limit >= 0 && rd.Size() > limit) { fprintf(stderr, "VIOLATED: %s: offered %d values, problem has %d\n", what, rd.Size(), limit); violations++; }
+    if (rd.Size() < 0) { fprintf(stderr, "VIOLATED: %s: a reader with a negative number of values (%d) was handed to the handler\n", what, rd.Size()); violations++; return; }
     int n = rd.Size();
     int take = g_mode == 0 ? n : (g_mode == 1 ? n / 2 : 0);
     for (int k = 0; k < take && rd.Size(); ++k) rd.ReadNext();
